@@ -111,10 +111,11 @@ def _workflows():
         ("sorting", dict(append_middleware=[mw.NormalizeFieldKeys(), mw.SortFieldsAlphabeticallyMiddleware()]), dict(prepend_middleware=[mw.SortBlocksByTypeAndKeyMiddleware()])),
         ("explicit stacks", dict(parse_stack=[mw.RemoveEnclosingMiddleware()]), dict(unparse_stack=[mw.AddEnclosingMiddleware(True, False, '"')])),
         ("empty additions", dict(append_middleware=[]), dict(prepend_middleware=[])),
+        ("same types as the default stack", dict(append_middleware=[mw.ResolveStringReferencesMiddleware(), mw.RemoveEnclosingMiddleware(), mw.RemoveEnclosingMiddleware()]), dict(prepend_middleware=[mw.AddEnclosingMiddleware(True, True, "{"), mw.AddEnclosingMiddleware(False, True, '"')])),
     ]
 
 
-WORKFLOWS = ["names", "months+latex", "sorting", "explicit stacks", "empty additions"]
+WORKFLOWS = ["names", "months+latex", "sorting", "explicit stacks", "empty additions", "same types as the default stack"]
 HISTORY_DOCS = [
     "@article{k, author = {Ada Lovelace and Turing, Alan}, title = {Caf\\'e {T}}, month = jan, year = 1990}\n",
     '@string{s = "x"}\n@book{b, editor = "Knuth, D. E.", publisher = s, month = 3}\n% c\n',
